@@ -368,6 +368,10 @@ func runWidth1(m *Model, r *RuleResult) {
 							if b, ok := call.Call.Value.(*ssa.Builtin); ok && b.Name() == "max" {
 								isMax = true
 							}
+							// a helper of the package that max-reduces its value parameter into the cell m[k] of its map parameter
+							if c := call.Call.StaticCallee(); c != nil && pkgPathOf(c) == pkgPathOf(g) && maxReducesParamIntoCell(c, call, ex) {
+								continue
+							}
 						}
 						if !isMax {
 							okUse, why = false, fmt.Sprintf("the width is used by %s at %s", r2.String(), m.Pos(r2.Pos()))
@@ -404,4 +408,47 @@ func runWidth1(m *Model, r *RuleResult) {
 	if found == 0 {
 		r.undecided("colouring-function", "-", "the recursive (*Node, float64) function of the SinkColoring positioner", "not found")
 	}
+}
+
+// maxReducesParamIntoCell: callee c, called with value v as one argument, does nothing but m[k] = max(m[k], that parameter).
+func maxReducesParamIntoCell(c *ssa.Function, call *ssa.Call, v ssa.Value) bool {
+	pi := -1
+	for i, a := range call.Call.Args {
+		if a == v && i < len(c.Params) {
+			pi = i
+		}
+	}
+	if pi < 0 || len(c.Blocks) != 1 {
+		return false
+	}
+	found := false
+	nUpd := 0
+	for _, in := range c.Blocks[0].Instrs {
+		mu, ok := in.(*ssa.MapUpdate)
+		if !ok {
+			continue
+		}
+		nUpd++
+		mc, ok := mu.Value.(*ssa.Call)
+		if !ok {
+			return false
+		}
+		b, ok := mc.Call.Value.(*ssa.Builtin)
+		if !ok || b.Name() != "max" {
+			return false
+		}
+		hasOld, hasParam := false, false
+		for _, a := range mc.Call.Args {
+			if lk, ok := a.(*ssa.Lookup); ok && lk.X == mu.Map && lk.Index == mu.Key {
+				hasOld = true
+			}
+			if a == ssa.Value(c.Params[pi]) {
+				hasParam = true
+			}
+		}
+		if hasOld && hasParam {
+			found = true
+		}
+	}
+	return found && nUpd == 1
 }
